@@ -158,7 +158,9 @@ def run(tier, replay=None):
             viol.append({"what": f"{it['insn']}: emitted text could not be read by the semantic driver", "instruction": it["insn"], "program": it["src0"]})
             continue
         cnt["states_run"] += d["ran"]
-        cert = d.get("certified") == "1" or d.get("certified-sem") == "1"
+        cert0 = d.get("certified") == "1" or d.get("certified-sem") == "1"
+        # certifiedSemX: the end-to-end theorem needs the extra assumption MsLow on extract64/sextract64 (Props/T2Sem.lean)
+        cert = cert0 or d.get("certified-semx") == "1"
         if not d["tree-equal"]:
             buckets["tie_broken"] += 1
             viol.append({"what": f"{it['insn']} part {it['part']}: the real output is not what the lowering model predicts" +
@@ -190,6 +192,8 @@ def run(tier, replay=None):
         it["_cert"] = (bool(cert), d.get("cert-detail"))
         if cert:
             buckets["proved_for_all_states"] += 1
+            if not cert0:
+                cnt["proved_for_all_states_only_under_MsLow"] += 1
             if len(examples.get("_certified", [])) < 6:
                 examples.setdefault("_certified", []).append(it["insn"])
         else:
@@ -225,5 +229,9 @@ def run(tier, replay=None):
     })
     res.assumptions += ["parts outside the modelled dialect (reasons counted in unmodelled_by_reason) are checked per output only (sort/well-formedness/ownership), not semantically",
                         "states where the C side is undefined or out of fuel are not judged",
-                        "float instructions and HVX are outside the model"]
+                        "float instructions and HVX are outside the model",
+                        "proved_for_all_states: the certificate of the part evaluates to true in Lean (certified / certifiedSem / certifiedSemB / certifiedSemP: "
+                        "theorems of Props/C01.lean, Props/T2Sem.lean for every macro interpretation with MsOK); counts.proved_for_all_states_only_under_MsLow of them "
+                        "hold by certifiedSemX only, whose theorem (Sem.certifiedSemX_correct) assumes in addition MsLow: extract64/sextract64(v, start, len) do not depend on "
+                        "the bits of v from start+len upwards (proved for the interpretation the driver executes with: Sem.msLow_macroSem)"]
     return res.finish(TB, "cd lean && lake build RzilVerif.Props.C01")
